@@ -130,7 +130,9 @@ def corr_objects_x(check, tier):
     per_class = 4 if tier == 'quick' else 10
     prots = {False: XmlDocument(), True: XmlDocument(validator='soft')}
     for ui in range(n_univ):
-        desc = X.gen_universe(rng, n_classes=rng.randint(2, 6), namespaces=('urn:t', 'urn:u', 'urn:v') if ui % 3 else ('urn:t',))
+        desc = X.gen_universe(rng, n_classes=rng.randint(2, 6), namespaces=('urn:t', 'urn:u', 'urn:v') if ui % 3 else ('urn:t',),
+                              allow_sub_ns=True)
+        has_sub_ns = any(f.get('sub_ns') for c in desc['classes'] for f in c['fields'])
         classes = X.build_classes(desc)
         imports = IMPORTS_X + 'Definition UU : universe := %s.\n' % X.g_universe(desc, classes)
         enc_cases, dec_cases = [], []
@@ -166,7 +168,7 @@ def corr_objects_x(check, tier):
                                           'universe %d class %d soft=%s %s: %s -> %r' % (
                                               ui, cid, soft, what, etree.tostring(doc).decode()[:300], d)))
                         check.count(('xdec', soft, etree.tostring(doc)))
-                        if what == 'as written' and not soft:
+                        if what == 'as written' and not soft and not has_sub_ns:
                             # direct oracle, independent reader: the document follows the (would-be) schema, every member
                             # qualified by the namespace of the class that declares it, and denotes the value
                             want = X.norm_value(desc, ('ref', cid), v)
